@@ -470,7 +470,7 @@ func childMain(dir string) {
 		fmt.Println("bad spec:", err)
 		os.Exit(3)
 	}
-	e := &env{spec: sp, dir: dir, b: vlib.NewBatch(), model: map[string]*modelRec{}, waitLim: 60 * time.Second, earlyLim: 5 * time.Second}
+	e := &env{spec: sp, dir: dir, b: vlib.NewBatch(), model: map[string]*modelRec{}, waitLim: 60 * time.Second, earlyLim: 3 * time.Second}
 	if sp.Build == "race" {
 		e.waitLim, e.earlyLim = 150*time.Second, 12*time.Second
 	}
@@ -578,6 +578,13 @@ func runSequence(e *env, no int, avoid map[string]bool) {
 		saved := s.r
 		s.r = vlib.NewRand(e.spec.Seed, fmt.Sprintf("C13/gated/%d", e.spec.Batch), uint64(no))
 		s.stepGated()
+		s.r = saved
+		e.jwrite("Q", c.no, nil, "")
+	}
+	if no%4 == 1 && e.spec.Batch%4 == 0 && !e.aborted {
+		saved := s.r
+		s.r = vlib.NewRand(e.spec.Seed, fmt.Sprintf("C13/slow/%d", e.spec.Batch), uint64(no))
+		s.stepSlowClient()
 		s.r = saved
 		e.jwrite("Q", c.no, nil, "")
 	}
